@@ -8,7 +8,8 @@ import Juniper.Model.Group
 reachable by internal steps from the current set (the action may race with whatever is runnable);
 `settle <runs begun per registration, comma separated>|<1/0 per Stop/StopAndWait call: returned>` —
 `synctest.Wait()`: only quiescent states that show exactly these observables are kept.
-Answer `ok <n>` or `reject …` (the set became empty). -/
+Answer `ok <n>` or `reject …` (the set became empty). `cex` searches the model itself for a violation of
+the barrier clause from the current set (Model-vs-Spec; answers `ok none…` or `cex …`). -/
 namespace Juniper.Driver.C17
 open Juniper.Driver Juniper.Model.Group
 
@@ -60,6 +61,15 @@ def step' (s : St) : List String → St × String
       x.threads.map (·.runs) == runs && x.stoppers.map (fun st => if st.todo.isEmpty then 1 else 0) == rets
         && !x.panicked
     fin s keep s!"settle {obs}: the model's quiescent states show {(Q.map showObs).eraseDups}"
+  | ["cex"] =>
+    -- Model-vs-Spec search: is a state reachable (by internal steps from the current set) in which a
+    -- StopAndWait has returned although some thread holds the wait group or is past its context check?
+    let R := reach s.set
+    let bad := R.filter fun x => x.barrier && x.threads.any fun t =>
+      t.pc != .spawnStart && t.pc != .spawnLocked && t.pc != .spawnBail && t.pc != .notSpawned && t.pc != .exited
+    match bad with
+    | [] => (s, s!"ok none-in-{R.length}-states")
+    | x :: _ => (s, "cex barrier passed with thread pcs " ++ joinWith "," (x.threads.map fun t => reprStr t.pc))
   | _ => (s, "bad-op")
 
 def handler : Handler := { σ := St, init := {}, step := step' }
